@@ -2,6 +2,7 @@ package sim
 
 import (
 	"fmt"
+	"os"
 	"reflect"
 	"runtime/debug"
 	"sort"
@@ -503,11 +504,20 @@ func ResultOfDoc(d orda.Document, e interface{}) Result {
 // IsNilDoc tells whether a Document interface holds nothing usable.
 func IsNilDoc(d orda.Document) bool { return isNilIface(d) }
 
+// repoMarker is the path prefix of orda's source files in stack traces (/repo/, or the checkout
+// named by VERIF_REPO when the checks are built against another copy of the repository).
+var repoMarker = func() string {
+	if alt := os.Getenv("VERIF_REPO"); alt != "" {
+		return strings.TrimRight(alt, "/") + "/"
+	}
+	return "/repo/"
+}()
+
 // ordaFrames keeps the first few stack lines that name orda source files.
 func ordaFrames(stack []byte) string {
 	var out []string
 	for _, l := range strings.Split(string(stack), "\n") {
-		if strings.Contains(l, "/repo/") && !strings.Contains(l, "harness") {
+		if strings.Contains(l, repoMarker) && !strings.Contains(l, "harness") {
 			out = append(out, strings.TrimSpace(strings.Split(l, " +0x")[0]))
 			if len(out) == 4 {
 				break
